@@ -2,6 +2,7 @@ package main
 
 import (
 	"context"
+	"crypto/ed25519"
 	"encoding/json"
 	"errors"
 	"fmt"
@@ -19,7 +20,7 @@ func init() {
 	register(&propDef{
 		ID:    "C15",
 		Level: "exploration",
-		Rule: "each handler is called on a simulated room (really signed events) with every guard of the statement set true / false: all-true, every single guard false, every pair false, random larger subsets. make_join / make_leave: {remote supports the version, user belongs to the requesting server, local server in room, (restricted rooms) an entitled local authoriser exists / pending invite / allowed room not resident, the template event passes auth (joiner banned, not invited, already joined ...)}; send_join: {membership, state key = sender, room ID, event ID, sender of the requesting server, origin signature valid, not banned, authorising user local}; invite: {room ID, origin signature valid, known room and already joined, stripped state supplied or generated}; PerformJoin against a scripted remote: {make_join version known, create event present, create event of a known version, state and auth events correctly signed, join allowed by the returned state, echoed join event well-formed}. Returned events are checked for a valid local signature over the unmodified event (independent ed25519 check). " +
+		Rule: "each handler is called on a simulated room (really signed events) with every guard of the statement set true / false: all-true, every single guard false, every pair false, random larger subsets. make_join / make_leave: {remote supports the version, user belongs to the requesting server, local server in room, (restricted rooms) an entitled local authoriser exists / pending invite / allowed room not resident, the template event passes auth (joiner banned, not invited, already joined ...)}; send_join: {membership, state key = sender, room ID, event ID, sender of the requesting server, origin signature valid, not banned, authorising user local}; invite: {room ID, origin signature valid, known room and already joined, stripped state supplied or generated}; HandleInviteV3 (pseudo-ID rooms): {room ID, known room and already joined}, returned event = the template completed with the invitee's sender ID and validly signed by the invitee's room key; PerformJoin against a scripted remote: {make_join version known, create event present, create event of a known version, state and auth events correctly signed, join allowed by the returned state, echoed join event well-formed}. Returned events are checked for a valid local signature over the unmodified event (independent ed25519 check). " +
 			"distinct = distinct (handler, version, guard vector, room); non-trivial = at least one guard false or a restricted room",
 		Assumptions: []string{"the handlers' querier interfaces are implemented by scripted stubs backed by the simulator's ground truth", "reference redaction and independent ed25519 verification for the local-signature check", "HandleInvite has no request-origin parameter and takes an already classified PDU: only the guards its signature offers are asserted"},
 		Run:         runC15,
@@ -172,6 +173,7 @@ func runC15(c *mon.Ctx) {
 			c15MakeJoinLeave(c, sr, sc, b)
 			c15SendJoin(c, sr, sc, b)
 			c15Invite(c, sr, sc, b)
+			c15InviteV3(c, sr, sc)
 			c15PerformJoin(c, sr, sc, b)
 		}
 	}
@@ -531,6 +533,73 @@ func c15Invite(c *mon.Ctx, r *gen.Rand, sc *simScenario, b *simBranch) {
 			ov := ref.MustParse(out.JSON())
 			if st := ov.Get("unsigned").Get("invite_room_state"); st == nil || st.K != ref.Arr || len(st.A) == 0 {
 				c.Failf("invite:no-stripped-state", "the returned invite has no unsigned.invite_room_state: %s", out.JSON())
+			}
+		})
+	}
+}
+
+// c15InviteV3 drives the pseudo-ID variant of the invite handler: the local server completes the invite template with
+// the invited user's per-room key. Same guards as HandleInvite minus the origin signature (there is no signed event
+// yet); the returned event must be the template, with the invitee's sender ID as state key, validly signed by that key.
+func c15InviteV3(c *mon.Ctx, r *gen.Rand, sc *simScenario) {
+	ver := gmsl.RoomVersionPseudoIDs
+	t := ref.Traits(string(ver))
+	names := []string{"room-matches", "not-already-joined-in-known-room"}
+	roomPriv := gen.NewIdentity(r, "unused.example", "ed25519:1")
+	inviteeKey := gen.NewIdentity(r, "unused.example", "ed25519:1")
+	inviterSender := spec.SenderIDFromPseudoIDKey(roomPriv.Priv)
+	inviteeSender := spec.SenderIDFromPseudoIDKey(inviteeKey.Priv)
+	for _, vec := range guardVectors(r, len(names), 1) {
+		room, _ := spec.NewRoomID("!pseudo:origin.example")
+		proto := gmsl.ProtoEvent{SenderID: string(inviterSender), RoomID: room.String(), Type: "m.room.member", StateKey: strp("to-be-replaced"), PrevEvents: []string{sc.s.create.EventID()},
+			AuthEvents: []string{sc.s.create.EventID()}, Depth: 7, Content: []byte(`{"membership":"invite","reason":"` + fmt.Sprint(r.Intn(1000)) + `"}`)}
+		roomID := *room
+		if !vec[0] {
+			o, _ := spec.NewRoomID("!another:origin.example")
+			roomID = *o
+		}
+		known := true
+		membership := gen.Pick(r, []string{"", "leave", "invite"})
+		if !vec[1] {
+			membership = "join"
+		} else if r.Chance(0.4) {
+			known, membership = false, "join"
+		}
+		name := "invite_v3:" + vecName(names, vec)
+		c.Case(name, map[string]any{"guards": vecName(names, vec), "known_room": known, "current_membership": membership}, func() {
+			q := &c15querier{membership: membership, known: known}
+			out, err := gmsl.HandleInviteV3(context.Background(), gmsl.HandleInviteV3Input{
+				HandleInviteInput: gmsl.HandleInviteInput{RoomID: roomID, RoomVersion: ver, InvitedUser: spec.NewUserIDOrPanic("@invitee:third.example", true), InvitedSenderID: inviteeSender,
+					StrippedState: []gmsl.InviteStrippedState{gmsl.NewInviteStrippedState(sc.s.create)}, Verifier: c14ring, RoomQuerier: q, MembershipQuerier: q, StateQuerier: q, UserIDQuerier: userIDForSender},
+				InviteProtoEvent: proto,
+				GetOrCreateSenderID: func(ctx context.Context, userID spec.UserID, roomID spec.RoomID, roomVersion string) (spec.SenderID, ed25519.PrivateKey, error) {
+					return inviteeSender, inviteeKey.Priv, nil
+				}})
+			c15verdict(c, "invite_v3", name, allTrue(vec), err == nil, vecName(names, vec), ver)
+			if err != nil {
+				return
+			}
+			if out == nil {
+				c.Failf("invite_v3:no-event-returned", "HandleInviteV3 succeeded without an event")
+				return
+			}
+			ov, _, perr := ref.Parse(out.JSON())
+			if perr != nil {
+				c.Failf("invite_v3:unparseable", "HandleInviteV3 returned invalid JSON: %s", out.JSON())
+				return
+			}
+			if !refEventSigValid(ov, t, string(inviteeSender), "ed25519:1", inviteeKey.Pub) {
+				c.Failf("invite_v3:invitee-signature-missing-or-invalid", "the invite returned by HandleInviteV3 is not validly signed by the invitee's room key: %s", out.JSON())
+			}
+			if sk := out.StateKey(); sk == nil || *sk != string(inviteeSender) {
+				c.Failf("invite_v3:state-key-not-invitee", "the returned invite's state key is not the invitee's sender ID: %s", out.JSON())
+			}
+			if string(out.SenderID()) != proto.SenderID || out.RoomID().String() != proto.RoomID || out.Type() != proto.Type || !ref.Equal(ov.Get("content"), ref.MustParse(proto.Content)) ||
+				out.Depth() != proto.Depth || len(out.PrevEventIDs()) != 1 || out.PrevEventIDs()[0] != proto.PrevEvents.([]string)[0] {
+				c.Failf("invite_v3:template-modified", "HandleInviteV3 changed the template\n in  %+v\n out %s", proto, out.JSON())
+			}
+			if st := ov.Get("unsigned").Get("invite_room_state"); st == nil || st.K != ref.Arr || len(st.A) == 0 {
+				c.Failf("invite_v3:no-stripped-state", "the returned invite has no unsigned.invite_room_state: %s", out.JSON())
 			}
 		})
 	}
